@@ -152,7 +152,10 @@ func showNums(v []any) string {
 
 func runC18(c *fw.Ctx) {
 	pins := [][]any{{-3, -1, -2}, {-2.5, -7, -0.5}, {-4}, {-1.25}, {math.MaxInt, 1}, {math.MaxInt, 2.5, math.MaxInt}, {math.MinInt, -1.0, math.MinInt}, {1.0, 4, 5.0}, {0, 5, 5, 10},
-		{7}, {7.5}, {0}, {0.0}, {math.MaxInt}, {math.MinInt}, {3, 3.0}, {1e300, 1e300}, {-1, 1}, {0.1, 0.2, 0.3}, {2, 0.5}, {5, -5.0, 5}}
+		{7}, {7.5}, {0}, {0.0}, {math.MaxInt}, {math.MinInt}, {3, 3.0}, {1e300, 1e300}, {-1, 1}, {0.1, 0.2, 0.3}, {2, 0.5}, {5, -5.0, 5},
+		// products at the ends of the int range (exact in float64 in every order)
+		{math.MinInt, -1}, {-1, math.MinInt}, {math.MinInt, -1, -1}, {math.MaxInt, -1}, {math.MinInt, 1}, {i64(1 << 31), i64(-(1 << 31)), 2, -1}, {math.MinInt, -1.0}, {-1, -1, math.MinInt, -1},
+		{i64(3037000500), i64(3037000500)}, {i64(-3037000500), i64(3037000500), -1}, {math.MaxInt, math.MaxInt}, {math.MinInt, math.MinInt}, {math.MinInt, 0.5, -2}}
 	c.Cases("pinned", len(pins), true, func(i int, r *rng.R) { c18Numeric(c, pins[i], 1) })
 	// lists without any element, reached in different ways (fresh, emptied, empty results of deriving operations)
 	c.Cases("empty", 12, true, func(i int, r *rng.R) {
@@ -337,7 +340,19 @@ func c18NumericHist(c *fw.Ctx, l at.List, vals []any, class int, depth int, rr u
 		allNeg := true
 		exactSum, exactProd, sumAbs := new(big.Rat), big.NewRat(1, 1), new(big.Rat)
 		mn, mx := math.Inf(1), math.Inf(-1)
-		wantProd := (class == 0 || class == 3) && n <= 40
+		// the product is judged whenever no evaluation order can overflow or underflow: the factors of magnitude above 1
+		// multiply to at most 2^1000 and those below 1 to at least 2^-1000 (then every partial product of every order is
+		// a normal number and the relative error is bounded by n * 2^-52)
+		upLog, downLog := 0.0, 0.0
+		for _, v := range vals {
+			if a := math.Abs(toF(v)); a > 1 {
+				upLog += math.Log2(a)
+			} else if a > 0 && a < 1 {
+				downLog += math.Log2(a)
+			}
+		}
+		orderFree := upLog <= 1000 && downLog >= -1000
+		wantProd := ((class == 0 || class == 3) && n <= 40) || (orderFree && n <= 24)
 		for _, v := range vals {
 			f := toF(v)
 			if f >= 0 {
@@ -424,6 +439,9 @@ func c18NumericHist(c *fw.Ctx, l at.List, vals []any, class int, depth int, rr u
 				if a != 0 && (a > 1024 || a < 1.0/1024) {
 					safe = false
 				}
+			}
+			if orderFree {
+				safe = true
 			}
 			if safe && !within(prod, exactProd, tolP) {
 				c.Violate("aggregate-wrong:Prod", in(), fmt.Sprint(ep), fmt.Sprint(prod))
